@@ -37,12 +37,47 @@ def _trace_arrow_writer(src):
 
 SPEC = dict(
     id="C04",
-    level_text="(under construction)",
-    technique="Lean 4 proof over a panic-explicit executable model of the validate -> convert -> buffer -> merge -> sort -> schema pipeline; regenerated guard/limit facts; differential correspondence through the real fiber handlers with a real ArrowBuffer (sequences of requests to one server instance) and child-process confirmation of flush-goroutine crashes",
+    level_text=(
+        "PARTIAL, with confirmed findings. Model: Arc/Model/C04.lean, the validate -> convertColumnsToTyped -> signature / "
+        "flushOnSchemaChangeLocked -> buffer -> size trigger / FlushAll -> mergeBatches -> sort / slice -> getSchema -> "
+        "AppendValues / NewRecord pipeline over SEQUENCES of requests to one server, with every Go operation of that code that "
+        "can panic (type assertion in mergeBatches, name[0] in getSchema/inferSchema, col[idx] in applyPermutation, valid[idx] in "
+        "sortTypedColumnBatchByKeys, AppendValues length check, array.NewRecord row check, envHeader[:3+len(db)] in "
+        "AppendRawWithMeta) an explicit `Except Site` step; a panic on the request goroutine is a 500 from fiber's recover "
+        "middleware (rows extracted for the synchronous flush are lost), a panic on a flush goroutine is the death of the process. "
+        "The three full statements (C04_full, C04_reject_stores_nothing, C04_names) are FALSE of the current tree: machine-checked "
+        "witnesses C04_full_witness_empty_name (column \"\" -> name[0]), C04_full_witness_underscore_type_change (`_x` int then "
+        "string shares a buffer -> mergeBatches assertion), C04_full_witness_time_field (row-format field `time` doubles the time "
+        "column -> applyPermutation index), C04_full_witness_request_goroutine, C04_reject_stores_nothing_witness ([good, bad] "
+        "answered 500 with the first record buffered), C04_reject_stores_nothing_witness_import, C04_names_witness_underscore_dropped; "
+        "each is reproduced on the real server by the harness (flush-goroutine crashes in a CHILD PROCESS of the harness that runs "
+        "the unmodified code and dies with exit 2). Proved for ALL request sequences, buffer sizes and WAL settings: C04_partial "
+        "(under the decidable carve-out CleanReq = no empty / `_`-prefixed column name and every column as long as `time`, no "
+        "handler and no flush goroutine ever panics - invariant: every buffer holds clean batches of one signature), "
+        "C04_envelope_safe (+ C04_envelope_limits_tied: a validated database name cannot overflow the WAL envelope header), "
+        "C04_reject_by_validation_unchanged, C04_reject_stores_nothing_partial (single record, no FlushAll), C04_names_partial "
+        "(every non-`_`, non-empty column of a flushed batch is in the written schema), C04_names_typechange, and by `decide` over "
+        "the facts regenerated from the current source C04_facts_tied / C04_signature_skips_tied. ONLY VALIDATED (search, no proof): "
+        "gzip/zstd decoders, the msgpack wire decoder (C02), the line-protocol tokenizer (C01), encoding/csv, the arrow-go Parquet "
+        "reader, the TLE parser, fasthttp/fiber; their outcome enters the model as `pre` (rejected before buffering) and as the "
+        "decoded records that reached the buffer layer (observed through tracing hooks); for CSV/Parquet the 4xx of the parser stage "
+        "is taken from the observed status. Out-of-memory behaviour is not expressible."),
+    level_note="proved for the modelled validate -> convert -> buffer -> merge -> schema pipeline; decompressors, CSV/Parquet/TLE/msgpack/LP parsers and fasthttp are outside the model (harness stream there is search only)",
+    technique="Lean 4 invariant proof over a panic-explicit executable model of the ingest pipeline; regenerated guard/limit facts; differential correspondence through the real fiber handlers + real ArrowBuffer (sequences of requests to one server instance) with child-process confirmation of flush-goroutine crashes",
     factgen=True,
     hooks={"internal/ingest": "go/hooks/c04_ingest", "internal/api": "go/hooks/c04_api"},
     rewrite=[("internal/ingest/arrow_writer.go", _trace_arrow_writer)],
     harnesses=[dict(name="c04", tags="verif duckdb_arrow", timeout=dict(quick=900, thorough=3000))],
-    trusted_base=[],
-    assumptions=[],
+    trusted_base=[
+        "library stages are oracles: decompression, msgpack/LP/CSV/Parquet/TLE decoding produce `pre` and the records; the harness obtains them from the real decoders (oracle calls + tracing hooks added by a textual overlay rewrite that only ADDS calls)",
+        "getColumnSignature's textual `name:type,` join is treated as injective on the set of (name,type) entries (names containing ',' or ':' are not generated in model-compared sequences)",
+        "mergeBatches' first-seen typing is characterised pairwise (a failing assertion exists iff two batches give one name two Go types; names are unique per batch because they are Go map keys)",
+        "array.NewRecord's check depends on Go map order: the model reports the panic whenever some order panics (Site.possibleOnly); such flushes are compared as `mis` and end the sequence",
+        "single-threaded request order: one request at a time, asynchronous flushes complete before the next request (the harness waits for the worker); data races between concurrent requests are outside C04's quantifier",
+        "decimal columns are not configured (default deployment); default sort keys = [time]",
+        "the harness installs fiber's recover middleware itself (same package, same options as api.NewServer; fact handlerPanicsRecovered is regenerated from NewServer)",
+    ],
+    assumptions=[
+        "a flush-goroutine crash is reported only when a child process running the unmodified code dies (exit 2 with a Go panic trace); the parent's recover around the flush goroutines exists only to keep the harness alive",
+    ],
 )
